@@ -39,7 +39,7 @@ theorem Inv.progress {n₀ : Nat} {s : St} (hi : Inv n₀ s) {i : Nat} {t : Task
   · rfl
   · rfl
   · rfl
-  · cases outcome <;> rfl
+  · cases outcome.recovered <;> rfl
   · split <;> rfl
   · have := holds_pos hi ht (by simp [Pc.holdsToken])
     simp [this]
